@@ -1,8 +1,9 @@
 \* thorough export: all three retryable statuses, two repetitions, every status after a repetition
 CONSTANTS
   Statuses = {200, 204, 301, 400, 404, 429, 500}
-  Retryable = {408, 429, 503}
+  RetryStatuses = {408, 429, 503}
   RetryBodies = {"valid", "notJSON"}
+  UndecodableBodies = {"wrongType", "empty", "notJSON", "truncatedJSON", "badBase64"}
   AfterRetryStatuses = {200, 204, 301, 400, 404, 500}
   MaxAnswers = 3
   MaxCalls = 1
